@@ -18,7 +18,7 @@ from dataclasses import dataclass, field
 
 from tools.lib import common
 
-MODEL_FILE = "Ampverif/Model/C17Rename.lean"
+MODEL_FILE = "Ampverif/Drivers/C17Rename.lean"
 NAT_RE = r"[+-]?([0-9]+(?:[.][0-9]*)?|[.][0-9]+)"  # the regex of naming.natural_sorting
 
 # closed node set (surveyed on the corpus models + the synthetic generator); all of these are
